@@ -15,7 +15,7 @@ CONFIGS = {
               "C09": ["q_c09_rep_d2", "q_c09_rep_d3"]},
     "thorough": {"C05": ["q_c05", "q_c05_d3", "t_c05", "t_c05_d3"],
                  "C06": ["q_c06", "q_c06_budget", "t_c06", "t_c06_two"],
-                 "C07": ["q_c06", "q_c06_budget", "t_c06"],
+                 "C07": ["q_c06", "q_c06_budget", "t_c06", "live"],      # live: FairSpec => every go answered, an expired search ends
                  "C08": ["q_c08_mate1_d1", "q_c08_mate1_d2", "q_c08_mate1_d3", "q_c08_def_d2", "q_c08_def_d3", "t_c08_def_d3"],
                  "C09": ["q_c09_rep_d2", "q_c09_rep_d3"]},
 }
